@@ -1,5 +1,5 @@
 #!/bin/bash
-# usage: benign_check.sh [jobs]
+# usage: benign_check.sh [jobs] [Cxx]   (default: all properties)
 # Applies every behaviour-preserving refactor kept under notes/benign/*.diff (written by independent sub-agents; each builds and keeps the
 # tests of its packages passing) to a scratch copy of /repo made outside /repo and /verif, runs all 20 checks on the copy (static analysis
 # only) and requires that NO obligation is reported: the checks must stay silent on code where the properties hold.
@@ -9,6 +9,7 @@ cd "$(dirname "$0")/.." || exit 2
 export GOFLAGS=-mod=mod GOPROXY=off GOSUMDB=off GOTOOLCHAIN=local
 REPO="${VERIF_REPO:-/repo}"
 JOBS="${1:-3}"
+PROP="${2:-all}"
 V="$(pwd)"
 one() {
   m="$1"
@@ -17,10 +18,11 @@ one() {
   if ! (cd "$D" && patch -p1 -s < "$V/$m") >/dev/null 2>&1; then
     echo "BENIGN-STALE $m"; rm -rf "$D"; return 0
   fi
-  out=$("$V/bin/lemolint" check all --repo "$D" --verif "$V" --no-evidence 2>&1)
+  out=$("$V/bin/lemolint" check "$PROP" --repo "$D" --verif "$V" --no-evidence 2>&1)
   rm -rf "$D"
   bad=$(echo "$out" | grep -E "^(VIOLATED|UNDECIDED)" | head -3)
-  if [ -n "$bad" ] || ! echo "$out" | grep -q "^C20: "; then
+  last=C20; [ "$PROP" != all ] && last="$PROP"
+  if [ -n "$bad" ] || ! echo "$out" | grep -q "^$last: "; then
     echo "BENIGN-ALARM $m"; echo "$bad" | cut -c1-240; return 1
   fi
   echo "BENIGN-QUIET $m"; return 0
